@@ -278,7 +278,30 @@ static void runCase(uint64_t caseId, Rng rng, size_t ncycles, unsigned mode, con
 				case 3: cfg.triggerEvent = hlim::Clock::TriggerEvent::FALLING; break;
 				default: break;
 			}
-			islands.push_back(Island{Clock(cfg), {}, {}, {}});
+			// a second clock may be derived from the first one (own reset, same or another frequency)
+			bool derived = k == 1 && rng.chance(1, 3);
+			if (derived) {
+				ClockConfig dcfg;
+				static const std::vector<std::pair<uint64_t, uint64_t>> mults = {{1, 1}, {2, 1}, {1, 2}, {1, 1}};
+				auto m = rng.pick(mults);
+				dcfg.frequencyMultiplier = CR{m.first, m.second};
+				dcfg.name = cfg.name; dcfg.resetName = cfg.resetName;
+				dcfg.resetType = cfg.resetType; dcfg.resetActive = cfg.resetActive; dcfg.triggerEvent = cfg.triggerEvent;
+				islands.push_back(Island{islands[0].clock.deriveClock(dcfg), {}, {}, {}});
+			} else
+				islands.push_back(Island{Clock(cfg), {}, {}, {}});
+			{
+				// reset durations: whole cycles, or a time that is not a clock edge (released between two edges), or both
+				hlim::Clock *hc = islands.back().clock.getClk();
+				CR period = CR{1, 1} / hc->absoluteFrequency();
+				switch (rng.below(6)) {
+					case 0: hc->setMinResetCycles(rng.range(1, 5)); break;
+					case 1: hc->setMinResetTime(period * CR{rng.range(1, 39), 8}); break;
+					case 2: hc->setMinResetTime(period * CR{2 * rng.range(0, 9) + 1, 10}); hc->setMinResetCycles(rng.range(0, 3)); break;
+					case 3: hc->setMinResetTime(period * CR{rng.range(1, 30), 7}); break;
+					default: break;
+				}
+			}
 			Island &isl = islands.back();
 			ClockScope cs(isl.clock);
 			std::vector<UInt> vecs; std::vector<Bit> bits;
